@@ -9,13 +9,17 @@ PARTS = {1: ['array', 'array_ic4', 'segarray'],
          3: ['hmap_limp4', 'hmap_open8', 'hmmap'],
          4: ['tset_n4', 'tset_n4i', 'tset_n32'],
          5: ['tmap_n4', 'tmap_n32']}
-NOPS = {'array': 28, 'array_ic4': 28, 'segarray': 40, 'hset_limp4': 34, 'hset_open8': 34, 'hset_limp': 34, 'hmap_limp4': 30,
+NOPS = {'hmap_limp4_xc': 16, 'tmap_n4_xc': 16, 'array': 28, 'array_ic4': 28, 'segarray': 40, 'hset_limp4': 34, 'hset_open8': 34, 'hset_limp': 34, 'hmap_limp4': 30,
         'hmap_open8': 30, 'hmmap': 30, 'tset_n4': 40, 'tset_n4i': 40, 'tset_n32': 70, 'tmap_n4': 36, 'tmap_n32': 70}
-# findings on the unchanged tree (see NOTES.md); key -> predicate on (config, VIOL line)
+# known finding on the unchanged tree (known_findings.txt): with momo's DEFAULT extraCheckMode (= assertion) the post-insertion self
+# check pvExtraCheck (HashSet.h:1025-1036, TreeSet.h) re-runs the user's hash/equal/less functors after the insertion is committed,
+# swallows their exception and MOMO_EXTRA_CHECK asserts -> abort instead of the strong guarantee.  The *_xc configurations keep the
+# default mode and are run in their own process; only an abort at a FUNCTOR failure point is attributed to the known finding.
 KNOWN_KEYS = [
-    ('hashmultimap-copy-ctor-temp-valuearray',
-     lambda cfg, line: cfg == 'hmmap' and re.search(r'op\((8|9),', line) is not None and 'kind=a' in line),
+    ('extra-check-functor-throw-aborts',
+     lambda cfg, line: cfg.endswith('_xc') and line.startswith('VIOL abort') and 'kind=f' in line),
 ]
+XC = {3: ['hmap_limp4_xc'], 5: ['tmap_n4_xc']}
 
 
 def micro_cases(ctx):
@@ -53,6 +57,10 @@ def oracle_cases(ctx, scale):
                 for i in range(per):
                     nops = NOPS[cfg] if i % 3 else max(6, NOPS[cfg] // 2)
                     out.append((part, '%s %s %s %d %d' % (cfg, c, mode, r.below(10 ** 9), nops)))
+    for part, cfgs in XC.items():
+        for cfg in cfgs:
+            for i in range(2):
+                out.append((part, '%s N t %d %d' % (cfg, r.below(10 ** 9), NOPS[cfg])))
     return out
 
 
